@@ -52,7 +52,7 @@ func c01Concurrent(c *ev.Collector, t *testing.T, paths []path) {
 		}
 		for _, p := range paths {
 			restore := p.use()
-			shared := newAEAD(key, nonceLen) // the one object every goroutine uses
+			shared := newAEADShared(key, nonceLen) // the one object every goroutine uses (key buffer wiped after construction)
 			var wg sync.WaitGroup
 			var mu sync.Mutex
 			var first string
